@@ -26,7 +26,7 @@ func init() {
 			"{type1 key A, type1 key A', type1 unknown key id, type1 malformed element (A), type1 malformed element (A'), type2 key B, type2 unknown key id, type2 malformed element} under 9 issuer configurations ({A}, {B}, {A,A',B}, two with an always-refusing issuer of the same type and truncated key id registered before / after the real one, none at all, the same issuer twice, another order), a sweep of the unknown-key-id kinds over every truncated key id no configured issuer carries, plus seeded sequences of length 5..40 and large batches of 63..128 requests (response lists around the 16384-byte varint boundary). " +
 			"Oracle = executable model: entry i present iff some configured issuer has the request's type and last key-id byte and its own Evaluate of that request succeeds; the output decodes, has exactly n entries in order, present entries finalize under state i to a token valid under that issuer's key (circl FullEvaluate / rsa.VerifyPSS), absent ones are empty; the succeeding requests alone give an all-present batch. " +
 			"distinct_nontrivial = distinct (configuration, kind sequence) batches containing at least one failing and one succeeding request",
-		Floors:      []string{"batches_checked", "entries_present_valid", "entries_absent", "mixed_batches", "all_failing_batches", "all_succeeding_batches", "isolation_rechecked", "large_batches", "batches_handed_over_in_memory", "unknown_key_id_sweep", "colliding_working_issuers_first_configured_serves", "batch_evaluated_across_a_process_suspension", "batches_with_a_repeated_request"},
+		Floors:      []string{"batches_checked", "entries_present_valid", "entries_absent", "mixed_batches", "all_failing_batches", "all_succeeding_batches", "isolation_rechecked", "large_batches", "batches_handed_over_in_memory", "unknown_key_id_sweep", "colliding_working_issuers_first_configured_serves", "batch_evaluated_across_a_process_suspension", "batches_with_a_repeated_request", "runs_of_refused_requests_then_a_served_one"},
 		Assumptions: []string{"configured issuers of one type have pairwise different last key-id bytes and unknown keys differ from all of them (truncated-id collisions are outside the statement)"},
 		Run:         runC05,
 	})
@@ -531,8 +531,37 @@ func runC05(c *core.Ctx) {
 			b := byte(u)
 			w.forceID = &b
 			w.runBatch(2, []c05Kind{k1A, k1U, k2B, k2U, k1Ap}, c.CaseRng(), false, u%3 == 1)
+			// and the same inside a batch of 36 (large batches may take another path through the issuer)
+			kinds := make([]c05Kind, 0, 36)
+			for j := 0; j < 17; j++ {
+				kinds = append(kinds, k1A, k1Ap)
+			}
+			kinds = append(kinds[:9:9], append([]c05Kind{k1U}, kinds[9:]...)...)
+			kinds = append(kinds, k2U)
+			w.runBatch(2, kinds, c.CaseRng(), false, u%3 == 2)
 			w.forceID = nil
 			c.Class("unknown_key_id_sweep")
+		}
+		// runs of k requests that one issuer refuses, followed by a request it serves: adjacent, and interleaved with
+		// requests for another issuer
+		for _, k := range []int{1, 2, 3, 7, 8, 9, 15, 16, 17, 31, 32, 33, 64} {
+			if !c.Next() {
+				continue
+			}
+			var adj, inter []c05Kind
+			for _, pr := range [][2]c05Kind{{k1Abad, k1A}, {k2Bbad, k2B}, {k1Apbad, k1Ap}} {
+				for j := 0; j < k; j++ {
+					adj = append(adj, pr[0])
+				}
+				adj = append(adj, pr[1])
+			}
+			for j := 0; j < k; j++ {
+				inter = append(inter, k1Abad, k1Ap)
+			}
+			inter = append(inter, k1A, k1Ap, k1A)
+			w.runBatch(2, adj, c.CaseRng(), false, k%2 == 0)
+			w.runBatch(2, inter, c.CaseRng(), false, k%2 == 1)
+			c.Class("runs_of_refused_requests_then_a_served_one")
 		}
 		c.Exhaustive("every truncated key id that no configured issuer carries, for both token types")
 	}
